@@ -1,6 +1,6 @@
 (* C08 — Meek rule closure is sound and complete on patterns.  Statements: C08/Spec.v; model: C08/Model.v. *)
 From Coq Require Import List Arith Bool.
-From PG Require Import Base.ListSet Graph.MGraph C08.Model C08.Spec C08.Proofs C08.Bounded_n4 C08.Refuted C08.Acyclic C08.Cover C08.Fast C08.Bounded_n5 C08.Cover5 C08.Ext C08.ExtEss.
+From PG Require Import Base.ListSet Graph.MGraph C08.Model C08.Spec C08.Proofs C08.Bounded_n4 C08.Refuted C08.Acyclic C08.Cover C08.Fast C08.Bounded_n5 C08.Cover5 C08.Ext C08.ExtEss C08.Reflect.
 Import ListNotations.
 
 (* unbounded: the closure only turns undirected edges into directed ones (nodes, skeleton, directed edges kept) *)
@@ -93,3 +93,15 @@ Theorem meek_complete_on_patterns_bounded_5_every_dag : forall n d,
   pdag_eqb (meek_model (pattern_of d)) (essential_graph d) = true.
 Proof. exact meek_complete_every_dag_5. Qed.
 Print Assumptions meek_complete_on_patterns_bounded_5_every_dag.
+
+(* the boolean extension oracle is sound for the Prop-level spec (C08/Reflect.v) *)
+Theorem extension_oracle_sound : forall p, pwf p -> has_extension p = true -> exists d, consistent_ext p d.
+Proof. exact has_extension_sound. Qed.
+Print Assumptions extension_oracle_sound.
+
+(* a fully oriented PDAG that has a consistent extension is that extension: acyclic, the extension's v-structures *)
+Theorem fully_oriented_is_its_extension : forall q d, U q = [] -> consistent_ext q d ->
+  (forall a b, has_d q a b = has_d d a b) /\ acyclic q /\
+  (forall a c b, vstructb q a c b = true <-> vstructb d a c b = true).
+Proof. exact full_is_extension. Qed.
+Print Assumptions fully_oriented_is_its_extension.
